@@ -710,6 +710,53 @@ pub fn e2_replay(ctx: &Ctx, case: &Value, which: Which) -> Result<(), Failure> {
     judge_case(ctx, &c, which).map(|_| ())
 }
 
+/// Delta-debugging of the failing token string on the already shrunk grammar: all one-token deletions and
+/// both halves are judged in one compiled client (shortest first); a few rounds.
+fn minimise_failing_input(ctx: &Ctx, f: Failure, which: Which) -> Failure {
+    let Some(arr) = f.case["failing_input"].as_array() else { return f };
+    let mut best: Vec<u16> = arr.iter().filter_map(|x| x.as_u64().map(|n| n as u16)).collect();
+    let Ok(text) = case_text(&f.case) else { return f };
+    let Ok(g) = gcase_from_text(&text) else { return f };
+    let payload: Vec<Payload> = match f.case["payload"].as_array() {
+        Some(a) => a.iter().map(|v| payload_from_name(v.as_str().unwrap_or(""))).collect(),
+        None => return f,
+    };
+    if payload.len() != g.spec.n_terms {
+        return f;
+    }
+    let mut current = f;
+    for _ in 0..8 {
+        if best.len() <= 1 {
+            break;
+        }
+        let mut cands: Vec<Vec<u16>> = vec![best[..best.len() / 2].to_vec(), best[best.len() / 2..].to_vec()];
+        for i in 0..best.len() {
+            let mut c = best.clone();
+            c.remove(i);
+            cands.push(c);
+        }
+        cands.sort_by_key(|c| c.len());
+        cands.dedup();
+        let c = E2Case { spec: g.spec.clone(), naming: g.naming.clone(), payload: payload.clone(), text: text.clone(), inputs: cands };
+        match judge_case(ctx, &c, which) {
+            Err(nf) if !nf.internal && nf.kind == current.kind => {
+                let Some(a) = nf.case["failing_input"].as_array() else { break };
+                let ni: Vec<u16> = a.iter().filter_map(|x| x.as_u64().map(|n| n as u16)).collect();
+                if ni.len() >= best.len() {
+                    break;
+                }
+                best = ni;
+                let mut nf = nf;
+                // keep the replay small: only the minimal input
+                nf.case["inputs"] = json!([best.clone()]);
+                current = nf;
+            }
+            _ => break,
+        }
+    }
+    current
+}
+
 const RULES: [&str; 3] = [
     "accepted grammars from the 4 mixed sources (conventional names; payload types usize, crate::Pos, String, (), Vec<usize>, Option<usize>, Box<usize>); the emitted text is compiled unmodified with rustc and run on: all token strings up to a length bound (<= 400 strings), 24 random derivations (<= 64 tokens), 1-edit mutants and prefixes of sentences, random strings — each parsed twice with different payload values through a lazy iterator under catch_unwind, 2 GiB memory limit and a watchdog. Oracle: Earley membership in the CFG read off the declarations, cross-checked with the reference canonical-LR(1) driver. Non-trivial = a string judged for a grammar that is recursive or has a nullable nonterminal and whose string set has an accepted string of length >= 3 and a rejected string that fails after its first token; distinct = (canonical grammar, string).",
     "accepted grammars with every fieldset pattern (named / tuple / empty, any mask of used and `_` fields, structs and enum variants) and position-carrying payloads; sentences from 40 random derivations plus short enumerated strings; a generated client destructures every emitted type exhaustively (no `..`, no wildcard arm) and prints an s-expression which must equal the same rendering of the reference derivation tree (unique: LALR(1) grammars are unambiguous) with `_` fields removed and payload = position of the matched token (two payload offsets). The reference tree's leaves are checked to be the input left to right, each token once. Non-trivial = tree depth >= 3 with >= 1 `_` field and >= 2 used payload fields of the same terminal kind; distinct = (canonical grammar, sentence).",
@@ -768,6 +815,8 @@ pub fn run(ctx: &Ctx, which: Which) -> i32 {
     let cases = ctx.budget(1_000, 16_000);
     let out = run_sharded(&c2, label, cases, raw_e2, |raw, st| e2_test(ctx, raw, which, st));
     rep.absorb("E2-rustc-compiled-parsers", out);
+    let vs: Vec<Failure> = std::mem::take(&mut rep.violations);
+    rep.violations = vs.into_iter().map(|f| minimise_failing_input(ctx, f, which)).collect();
     if which != Which::C02 {
         let out = run_sharded(ctx, &format!("{label}-tables"), ctx.budget(100_000, 2_000_000), gen::raw_grammar, |raw, st| table_level_test(raw, which, st));
         rep.absorb("E1-table-level", out);
